@@ -80,6 +80,10 @@ func (g *G) textParts() []Part {
 			ps = append(ps, Part{Static: g.staticText()})
 		case 3:
 			ps = append(ps, Part{Expr: g.strFrag()})
+			if g.O.MultiLineFrags && g.chance(3) {
+				// an interpolation spanning two, three or four template lines
+				ps[len(ps)-1].Expr = g.pick("f2(s0,\n\t\t\ts1)", "f2(\n\t\t\ts0,\n\t\t\ts1)", "f2(\n\t\t\ts0,\n\t\t\ts1,\n\t\t)")
+			}
 		case 4:
 			switch g.R.Intn(4) {
 			case 0:
@@ -136,7 +140,7 @@ func (g *G) attrs(n *Node) {
 			a.Kind = ADynamic
 			a.Expr = g.strFrag()
 			if g.O.MultiLineFrags && g.chance(3) {
-				a.Expr = "f2(s0,\n\t\t\t\ts1)"
+				a.Expr = g.pick("f2(s0,\n\t\t\t\ts1)", "f2(\n\t\t\t\ts0,\n\t\t\t\ts1,\n\t\t\t)")
 			}
 		case 2:
 			a.Kind = ADynamic
@@ -185,12 +189,12 @@ func (g *G) elemHead() *Node {
 		n.ID = g.pick("top", "z9")
 	}
 	if g.O.ObjRefs && g.chance(8) {
-		n.ObjRef = g.pick("o0", `o0, "pre"`)
+		n.ObjRef = g.pick("o0", `o0, "pre"`, `o0, s1`)
 	}
 	g.attrs(n)
 	if g.O.MultiLineFrags && g.chance(4) {
 		// a fragment spanning lines followed by another fragment on the same generated line
-		n.ObjRef = "pickObj(o0,\n\t\t\t\to0)"
+		n.ObjRef = g.pick("pickObj(o0,\n\t\t\t\to0)", "pickObj(\n\t\t\t\to0,\n\t\t\t\to0,\n\t\t\t)")
 		if n.ClassAttr == "" && len(n.ClassExprs) == 0 {
 			n.ClassExprs = []string{"s1"}
 		}
@@ -443,6 +447,32 @@ func GenFile(r *rand.Rand, o Opts, nLayouts, nPages int) *File {
 	g.allowChildren = false
 	for i := 0; i < nPages; i++ {
 		f.Templates = append(f.Templates, &Template{Name: fmt.Sprintf("P%d", i), Sig: Sig, Body: g.Block(g.O.MaxDepth)})
+	}
+	if o.RenderHeavy {
+		// the children slot over a whole body: a render WITH a block followed, in the same body and in the same
+		// children block, by a render of the same layout WITHOUT one (which must see empty children)
+		for k := 0; k < nLayouts; k++ {
+			if !f.Templates[k].UsesChildren {
+				continue
+			}
+			callee := fmt.Sprintf("L%d%s", k, Args)
+			p := func(s string) *Node { return &Node{Kind: KElem, Tag: "p", Inline: &Node{Kind: KText, Parts: []Part{{Static: s}}}} }
+			with := func(kids ...*Node) *Node { return &Node{Kind: KRender, Callee: callee, Kids: kids} }
+			without := func() *Node { return &Node{Kind: KRender, Callee: callee} }
+			f.Templates = append(f.Templates, &Template{Name: fmt.Sprintf("Seq%d", k), Sig: Sig, Body: []*Node{
+				with(p("first block")), without(),
+				{Kind: KElem, Tag: "div", Kids: []*Node{with(with(p("inner")), without()), without()}},
+				p("end"),
+			}})
+		}
+	}
+	if o.MultiLineFrags {
+		// declarations with one parameter per line (a fragment of ten lines)
+		for i, t := range f.Templates {
+			if i%3 == 1 && t.Sig == Sig {
+				t.Sig = strings.ReplaceAll(strings.Replace(strings.Replace(Sig, "(", "(\n\t", 1), ")", ",\n)", 1), ", ", ",\n\t")
+			}
+		}
 	}
 	if o.VerbSpacing {
 		f.VerbStyle = g.R.Intn(4)
